@@ -143,8 +143,10 @@ CLAIMED = {
         note="Unbounded theorems (Props/C09.v): dNloc is the derivative of the span-local basis polynomial (Taylor form with "
              "explicit remainder; epsilon-delta statement over Q), the derivative formula for every degree and index, and by "
              "summation by parts the derivative of a curve is the degree p-1 curve whose coefficients are exactly the model's "
-             "difference_points (C09_model_curve_derivative). Not proved: the bookkeeping of removed full-multiplicity knots and "
-             "the rational quotient rule (oracle only). Floats: the result of Derivate is float even for Fraction input "
+             "difference_points (C09_model_curve_derivative); the quotient rule for NURBS values: rational_spec has the derivative "
+             "(N'W - N W')/W^2 on every open span wherever W <> 0 (C09_quotient_rule_*, epsilon-delta over Q). Not proved: the "
+             "bookkeeping of removed full-multiplicity knots, and that the library's rational Derivate (built from curve products) "
+             "returns a curve with those values (oracle per case). Floats: the result of Derivate is float even for Fraction input "
              "(not among the operations C16 requires to be exact), hence the 1e-9 comparison."),
     "C10": dict(
         text="Unbounded theorems (Props/C10.v), for EVERY n: the interpolatory weights the model computes (inverse of the "
